@@ -300,6 +300,17 @@ def interrupt_run(ctx, nlive, init, pre, cand, cand2, lineno, fn_name, n_done_ta
             ns2 = pickle.load(f)
         ns2 = NestedSampler.resume_from_pickled_sampler(ns2, _model())
         pickled = state_of(ns2)
+        return _continue_after_resume(ns2, before, pickled, cand2)
+    finally:
+        shutil.rmtree(tmp, ignore_errors=True)
+
+
+class ResumeFailed(Exception):
+    """the checkpoint left by the handler could not be resumed / continued (a violation, not a harness error)"""
+
+
+def _continue_after_resume(ns2, before, pickled, cand2):
+    try:
         # what FlowSampler.run_standard_sampler + nested_sampling_loop do on entry after a resume
         import datetime
         ns2.initialise()
@@ -316,8 +327,8 @@ def interrupt_run(ctx, nlive, init, pre, cand, cand2, lineno, fn_name, n_done_ta
         ns2.finalise()
         final = state_of(ns2)
         return before, pickled, resumed, final
-    finally:
-        shutil.rmtree(tmp, ignore_errors=True)
+    except Exception as e:  # noqa: the resumed run itself failed
+        raise ResumeFailed(f"{type(e).__name__}: {e}")
 
 
 def traced_lines(tags, consume, insert):
@@ -419,9 +430,15 @@ def correspond(ctx):
         cand = (ck, next(ids))
         cand2 = (max(live_keys) + 9, next(ids))
         for (ln, fn, done) in lines:
-            res = interrupt_run(ctx, nlive, init, pre, cand, cand2, ln, fn, done)
             case = {"nlive": nlive, "init": init, "pre": pre, "cand": cand, "cand2": cand2, "line": ln, "fn": fn,
                     "mutating_statements_done": done, "source": src.splitlines()[ln - 1].strip()}
+            try:
+                res = interrupt_run(ctx, nlive, init, pre, cand, cand2, ln, fn, done)
+            except ResumeFailed as e:
+                key = KEY_F4 if 2 <= done <= 6 else f"NestedSampler.{fn}:resume-after-signal:raised"
+                ctx.oracle_fail(key, f"the checkpoint written by the signal handler cannot be resumed/continued: {e}", case)
+                ctx.case((c, ln), True, kind=f"done={done}:resume-raised")
+                continue
             if res is None:
                 ctx.case((c, ln), False, kind="line-not-reached")
                 continue
@@ -547,10 +564,17 @@ def flow_phase_test(ctx, lines, src):
                 if not fired:
                     ctx.case(("flow", ln), False, kind="flow:line-not-reached")
                     continue
-                f3 = FlowSampler(_gauss_model(), output=d, resume=True, **kw)
-                f3.ns.max_iteration = f3.ns.iteration + 15
-                f3.ns.initialise()
-                f3.ns.nested_sampling_loop()
+                try:
+                    f3 = FlowSampler(_gauss_model(), output=d, resume=True, **kw)
+                    f3.ns.max_iteration = f3.ns.iteration + 15
+                    f3.ns.initialise()
+                    f3.ns.nested_sampling_loop()
+                except Exception as e:  # noqa: the resumed run itself failed
+                    key = KEY_F4 if 2 <= done <= 6 else f"NestedSampler.{fn}:resume-after-signal:raised"
+                    ctx.oracle_fail(key, "flow phase: the checkpoint written by the signal handler cannot be resumed/continued: "
+                                    f"{type(e).__name__}: {e}", case)
+                    ctx.case(("flow", ln), True, kind=f"flow:done={done}:resume-raised")
+                    continue
                 st = real_state(f3.ns)
                 ok = consistent({**st, "live": [(k, i) for k, i in st["live"]]}, nlive)
                 if not ok:
@@ -644,8 +668,13 @@ def replay(ctx, obj):
     c = obj["case"]
     if "case" in c and "nlive" not in c:
         c = c["case"]
-    res = interrupt_run(ctx, c["nlive"], [tuple(t) for t in c["init"]], [tuple(t) for t in c["pre"]], tuple(c["cand"]),
-                        tuple(c["cand2"]), c["line"], c["fn"], c["mutating_statements_done"])
+    try:
+        res = interrupt_run(ctx, c["nlive"], [tuple(t) for t in c["init"]], [tuple(t) for t in c["pre"]], tuple(c["cand"]),
+                            tuple(c["cand2"]), c["line"], c["fn"], c["mutating_statements_done"])
+    except ResumeFailed as e:
+        ctx.oracle_fail(obj.get("key", "NestedSampler:resume-after-signal:raised"), str(e), c)
+        ctx.case("replay", True, c)
+        return
     if res is None:
         ctx.case("replay", False)
         return
